@@ -28,6 +28,7 @@ TYPES = [(r'^(std::)?(string_view|basic_string_view<char(, std::char_traits<char
          (r'^nano::factory_t<nano::\w+>$', 'struct nv_factory'),
          (r'^(nano::factory_t<nano::\w+>::)?trobject$|^std::unique_ptr<nano::\w+.*>$|__unique_ptr_t<.*>$|^(nano::)?r\w+_t$', 'struct nv_fobj*'),
          (r'^(std::)?(regex|basic_regex<char.*>)$', 'struct nv_regex'),
+         (r'^char \(&\)\[\d+\]$', 'const char*'),      # forwarded constructor arguments of add<T>(description, args...): string literals
          (r'^nano::\w+_t$', 'struct nv_fobj')]
 IT = r'__normal_iterator<(const )?' + PAIR.replace('std::pair<', r'std::pair<')
 CALLS = [(r'^find_if\|', 'nv_find_if_entry({0}, {1}, &type_id)'),
@@ -85,7 +86,10 @@ def add_fn(tu, d):
     ty2 = [(r'^std::unique_ptr<' + e + r'.*>$', 'struct nv_fobj*')] + types
     calls = [(r'^ctor\|[^|]*proto_t\|', '(struct nv_proto){{0}, {1}}')] + calls
     return Fn('factory_add', tu, 'add', flt='factory_t', select=lambda x: x.get('mangledName') == mn, types=ty2, calls=calls, members=MEMBERS,
-              self_struct='struct nv_factory', uf_float=False, aggregates=['struct nv_proto'])
+              self_struct='struct nv_factory', uf_float=False, aggregates=['struct nv_proto'],
+              # the constructor arguments `args...` are only forwarded to std::make_unique<T> (whose result is an unknown new object): their
+              # types, whatever a registration passes (string literals, vectors of csv_t, ...), are erased
+              opaque=[r'^(?!bool$)'])
 
 
 def targets(tier):
